@@ -172,6 +172,10 @@ package core
 //@   logged
 //@ func (Transaction).Hash
 //@   ensures result != nil
+//@ ghost func feltIsZero(f felt.Felt) bool
+//@ extern func github.com/NethermindEth/juno/core/felt.(*Felt).IsZero
+//@   requires z != nil
+//@   ensures result == feltIsZero(*z)
 //@ extern func github.com/NethermindEth/juno/core/felt.(*Felt).Equal
 //@   requires z != nil && x != nil
 //@   ensures result <==> (*z == *x)
